@@ -80,6 +80,9 @@ func (c *Ctx) BuildQuery(o *Obligation, produceModels bool) (string, int) {
 		if a.Seq >= o.Seq {
 			continue
 		}
+		if a.FromObl != "" && c.noAssume[a.FromObl] {
+			continue
+		}
 		if a.Def != "" {
 			defIdx[a.Def] = append(defIdx[a.Def], i)
 		} else {
@@ -275,7 +278,16 @@ func Solve(o *Obligation, scratch string, quickCap, fullCap int, crossCheck bool
 	go func() { wg.Wait(); close(ch) }()
 	var total int64 = r.ms
 	var last solveResult = firstErr
+	nerr, nres := 0, 0
+	if firstErr.status == "error" {
+		nerr++
+	}
+	nres++
 	for res := range ch {
+		nres++
+		if res.status == "error" {
+			nerr++
+		}
 		if res.status == "unsat" || res.status == "sat" {
 			cancel()
 			o.Status, o.Solver, o.Ms, o.Output = res.status, res.solver, total+res.ms, res.out
@@ -285,9 +297,7 @@ func Solve(o *Obligation, scratch string, quickCap, fullCap int, crossCheck bool
 			os.Remove(file)
 			return
 		}
-		if res.status == "error" && last.status != "error" {
-			last = res
-		} else if last.status == "" {
+		if last.status == "error" && res.status != "error" {
 			last = res
 		}
 		if res.ms > total {
@@ -296,6 +306,9 @@ func Solve(o *Obligation, scratch string, quickCap, fullCap int, crossCheck bool
 	}
 	o.Status, o.Solver, o.Ms, o.Output = last.status, last.solver, total, last.out
 	if o.Status == "sat" || o.Status == "unsat" {
+		o.Status = "unknown"
+	}
+	if nerr < nres && o.Status == "error" {
 		o.Status = "unknown"
 	}
 	// keep the query of an undecided obligation for inspection
